@@ -1,4 +1,5 @@
 import CollectionsC.Proofs.StackMem
+import CollectionsC.Properties.C01
 /-! # C09 (stack half) — `CC_Stack` is LIFO
 
 Statements only (helpers: `Proofs/Stack.lean`, `Proofs/Array*.lean`).  Concrete model `CC.Stack`
@@ -240,6 +241,33 @@ theorem new_history_refines (cap : Nat) (grow : Nat → Nat) (exGe : Nat → Boo
     exact ⟨t1, t2, t3, by rw [o1]; exact h6, by rw [t6]; exact h7, by unfold Stack.Coh; rw [o4, o5, hvt, ht],
       by rw [o5, ht]⟩
 
+/-- **from the constructor under an arbitrary schedule** (refusing constructors included): either the
+constructor fails — no object, the triple's live-block count where it was, no fault, `CC_ERR_ALLOC`
+exactly when a refusal fired (never on the C library's triple) — or it yields a stack on which every
+history is LIFO (`new_history_refines`) -/
+theorem new_any_schedule (cap : Nat) (grow : Nat → Nat) (exGe : Nat → Bool) (m0 : Mem) (t : Triple) (ops : List SOp) :
+    ((Stack.new cap grow exGe m0 t).2.1 = none ∧ (Stack.new cap grow exGe m0 t).1 ≠ .ok ∧
+      Arr.own t (Stack.new cap grow exGe m0 t).2.2 = Arr.own t m0 ∧ (Stack.new cap grow exGe m0 t).2.2.fault = m0.fault ∧
+      ((Stack.new cap grow exGe m0 t).1 = .errAlloc ↔ (Stack.new cap grow exGe m0 t).2.2.nrefused = m0.nrefused + 1) ∧
+      (t = .libc → (Stack.new cap grow exGe m0 t).1 ≠ .errAlloc)) ∨
+    (∃ s0, (Stack.new cap grow exGe m0 t).2.1 = some s0 ∧ (Stack.new cap grow exGe m0 t).1 = .ok ∧
+      (s0.run ops (Stack.new cap grow exGe m0 t).2.2).1 =
+        (Spec.Seq.srun [] ops ((s0.run ops (Stack.new cap grow exGe m0 t).2.2).1.map Out.blocked)).1 ∧
+      (s0.run ops (Stack.new cap grow exGe m0 t).2.2).2.1.abs =
+        (Spec.Seq.srun [] ops ((s0.run ops (Stack.new cap grow exGe m0 t).2.2).1.map Out.blocked)).2 ∧
+      (s0.run ops (Stack.new cap grow exGe m0 t).2.2).2.1.Inv ∧
+      Arr.own t (s0.run ops (Stack.new cap grow exGe m0 t).2.2).2.2 = Arr.own t m0 + 3 ∧
+      (s0.run ops (Stack.new cap grow exGe m0 t).2.2).2.2.fault = m0.fault) := by
+  have l := Stack.new_led cap grow exGe m0 t
+  rcases Stack.new_spec cap grow exGe m0 t with ⟨e, h, ho, hf⟩ | ⟨ok, r, h1, _⟩
+  · left
+    refine ⟨h, by rcases e with e | e <;> rw [e] <;> simp, ho, hf, l.nrefused_iff.1, fun ht he => ?_⟩
+    have := l.2.2.2 ht
+    simp [he] at this
+  · right
+    obtain ⟨t1, t2, t3, t4, t5, _⟩ := new_history_refines cap grow exGe m0 t r h1 ops
+    exact ⟨r, h1, ok, t1, t2, t3, t4, t5⟩
+
 /-! ## History-level statements in the property's own vocabulary -/
 
 /-- **size = insertions − successful removals**, over any history of the ideal stack (blocked
@@ -316,6 +344,227 @@ theorem spec_lifo {ops : List SOp} (hb : Spec.Seq.Bal ops) (xs : List Nat) (x : 
     List.headD_nil]
   rw [← List.append_assoc, List.getLast?_concat]
   simp
+
+/-- **what lies below is untouched, under every block list**: as long as the ideal stack never becomes
+shorter than a bottom part `p`, that part stays where it is — whatever is pushed (blocked or not),
+popped, peeked above it -/
+theorem spec_below_untouched (p : List Nat) : ∀ (ops : List SOp) (xs : List Nat) (blks : List (Option Stat)),
+    (∀ k, k ≤ ops.length → p.length ≤ (Spec.Seq.srun (p ++ xs) (ops.take k) blks).2.length) →
+    ∃ ys, (Spec.Seq.srun (p ++ xs) ops blks).2 = p ++ ys := by
+  intro ops
+  induction ops with
+  | nil => intro xs blks _; exact ⟨xs, rfl⟩
+  | cons op ops ih =>
+    intro xs blks h
+    have h1 := h 1 (by simp)
+    simp only [List.take_succ_cons, List.take_zero, Spec.Seq.srun] at h1
+    have hstep : ∃ xs', (Spec.Seq.sstep (p ++ xs) op (blks.headD none)).2 = p ++ xs' := by
+      cases op with
+      | push x =>
+        simp only [Spec.Seq.sstep]
+        split
+        · exact ⟨xs, rfl⟩
+        · exact ⟨xs ++ [x], by simp [Spec.Seq.push, Spec.Seq.add]⟩
+      | pop =>
+        simp only [Spec.Seq.sstep, Spec.Seq.pop, Spec.Seq.removeLast] at h1 ⊢
+        by_cases hx : xs = []
+        · subst hx
+          by_cases hp : p = []
+          · subst hp; exact ⟨[], by simp⟩
+          · simp [hp] at h1
+            have : 0 < p.length := List.length_pos_iff.2 hp
+            omega
+        · have hne : p ++ xs ≠ [] := by simp [hx]
+          simp only [hne, if_false]
+          exact ⟨xs.dropLast, by rw [List.dropLast_append_of_ne_nil hx]⟩
+      | peek => exact ⟨xs, rfl⟩
+      | size => exact ⟨xs, rfl⟩
+    obtain ⟨xs', hx'⟩ := hstep
+    simp only [Spec.Seq.srun]
+    rw [hx']
+    apply ih xs' blks.tail
+    intro k hk
+    have := h (k + 1) (by simp; omega)
+    simp only [List.take_succ_cons, Spec.Seq.srun] at this
+    rw [hx'] at this
+    exact this
+
+/-- **LIFO under every block list** (refused pushes anywhere): let `x` be on top of `xs`; after any
+calls during which the stack never gets shorter than `xs ++ [x]`, once it is back to that length the
+next pop reports exactly `x` and leaves `xs` -/
+theorem spec_lifo_any_schedule (xs : List Nat) (x : Nat) (ops : List SOp) (blks : List (Option Stat))
+    (hge : ∀ k, k ≤ ops.length → xs.length + 1 ≤ (Spec.Seq.srun (xs ++ [x]) (ops.take k) blks).2.length)
+    (hback : (Spec.Seq.srun (xs ++ [x]) ops blks).2.length = xs.length + 1) :
+    Spec.Seq.pop (Spec.Seq.srun (xs ++ [x]) ops blks).2 = (.ok, some x, xs) := by
+  obtain ⟨ys, hy⟩ := spec_below_untouched (xs ++ [x]) ops [] blks (by
+    intro k hk; simpa using hge k hk)
+  simp only [List.append_nil] at hy
+  have : ys = [] := by
+    rw [hy] at hback
+    simp at hback
+    exact hback
+  rw [hy, this]
+  simp [Spec.Seq.pop, Spec.Seq.removeLast]
+
+/-! ## The same clauses on the concrete stack model (`Stack.run`), for every refusal schedule -/
+
+theorem blocked_ne_ok (o : Out) : o.blocked ≠ some .ok := by
+  unfold Out.blocked
+  split
+  · rename_i h; rcases h with h | h <;> rw [h] <;> simp
+  · simp
+
+theorem srun_unblocked (ops : List SOp) : ∀ (xs : List Nat) (blks : List (Option Stat)),
+    (∀ b ∈ blks, b = none) → Spec.Seq.srun xs ops blks = Spec.Seq.srun xs ops [] := by
+  induction ops with
+  | nil => intro xs blks _; rfl
+  | cons op ops ih =>
+    intro xs blks hb
+    have hh : blks.headD none = none := by
+      cases blks with
+      | nil => rfl
+      | cons b bs => exact hb b (by simp)
+    simp only [Spec.Seq.srun, hh, List.headD_nil, List.tail_nil]
+    rw [ih _ blks.tail (fun b hb' => hb b (List.mem_of_mem_tail hb'))]
+
+/-- **size = successful pushes − successful pops, on the C model**: after any history, under any
+refusal schedule, the number of elements is the initial number plus one for every push that reported
+`CC_OK` minus one for every pop that reported `CC_OK` (blocked pushes and pops on the empty stack count
+for nothing) -/
+theorem size_history_model (ops : List SOp) (s : Stack) (m : Mem) (hinv : s.Inv) :
+    ((s.run ops m).2.1.size : Int) =
+      s.size + ((ops.zip (s.run ops m).1).map (fun p => Spec.Seq.sizeEffect p.1 p.2)).sum := by
+  obtain ⟨h1, h2, _⟩ := history_refines ops s m hinv
+  have hsz : ∀ t : Stack, t.size = t.abs.length := fun t => by simp [Stack.size, Stack.abs]
+  have := spec_size_history ops s.abs ((s.run ops m).1.map Out.blocked) (by
+    intro b hb
+    simp only [List.mem_map] at hb
+    obtain ⟨o, _, rfl⟩ := hb
+    exact blocked_ne_ok o)
+  rw [← h1, ← h2] at this
+  rw [hsz, hsz]
+  exact this
+
+/-- **LIFO on the C model, every schedule**: push `x`, run any well-bracketed program, pop.  If no call
+of the bracket was blocked (every push in it reported `CC_OK` — whatever the allocator refused before
+or after), the final pop reports exactly `x` and the stack holds what it held before the push; the
+invariant holds and the ledger is balanced -/
+theorem lifo_model {ops : List SOp} (hb : Spec.Seq.Bal ops) (s : Stack) (m : Mem) (x : Nat) (hinv : s.Inv)
+    (hnb : ∀ o ∈ (s.run (.push x :: ops ++ [.pop]) m).1, o.blocked = none) :
+    (s.run (.push x :: ops ++ [.pop]) m).1.getLast? = some { st := some .ok, val := some x } ∧
+    (s.run (.push x :: ops ++ [.pop]) m).2.1.abs = s.abs ∧ (s.run (.push x :: ops ++ [.pop]) m).2.1.Inv ∧
+    (s.run (.push x :: ops ++ [.pop]) m).2.2.fault = m.fault := by
+  obtain ⟨h1, h2, h3, _, h5⟩ := history_refines (.push x :: ops ++ [.pop]) s m hinv
+  have hu := srun_unblocked (.push x :: ops ++ [.pop]) s.abs ((s.run (.push x :: ops ++ [.pop]) m).1.map Out.blocked) (by
+    intro b hb'
+    simp only [List.mem_map] at hb'
+    obtain ⟨o, ho, rfl⟩ := hb'
+    exact hnb o ho)
+  rw [hu] at h1 h2
+  obtain ⟨l1, l2⟩ := spec_lifo hb s.abs x
+  exact ⟨by rw [h1]; exact l1, by rw [h2]; exact l2, h3, h5⟩
+
+/-- a well-bracketed program in which no push was blocked returns the C stack to the content it had -/
+theorem balanced_restores_model {ops : List SOp} (hb : Spec.Seq.Bal ops) (s : Stack) (m : Mem) (hinv : s.Inv)
+    (hnb : ∀ o ∈ (s.run ops m).1, o.blocked = none) : (s.run ops m).2.1.abs = s.abs := by
+  obtain ⟨_, h2, _⟩ := history_refines ops s m hinv
+  rw [srun_unblocked ops s.abs _ (by
+    intro b hb'
+    simp only [List.mem_map] at hb'
+    obtain ⟨o, ho, rfl⟩ := hb'
+    exact hnb o ho)] at h2
+  rw [h2]; exact spec_balanced_restores hb s.abs
+
+/-- **no call of a stack history is blocked on an allocator that never refuses** (the C library's
+triple — `cc_stack_new` —, or configured allocators with an empty refusal schedule), while the sizes
+stay below the byte-size limit and the growth function does not overshoot it on the capacities below
+`size + |ops|`: this pins the `blocked` oracle of `history_refines` down for such histories -/
+theorem history_unblocked (ops : List SOp) (s : Stack) (m : Mem) (hinv : s.Inv)
+    (hs : s.v.triple = .libc ∨ m.sched = [])
+    (hB : s.size + ops.length ≤ Gen.CC_MAX_ELEMENTS / 8)
+    (hg : ∀ c, c < s.size + ops.length → s.v.grow c ≤ Gen.CC_MAX_ELEMENTS / 8) :
+    ∀ o ∈ (s.run ops m).1, o.blocked = none := by
+  induction ops generalizing s m with
+  | nil => intro o ho; simp [Stack.run] at ho
+  | cons op ops ih =>
+    obtain ⟨_, s2, s3, s4, _, _, _⟩ := step_refines s op m hinv
+    obtain ⟨_, ht, _⟩ := Stack.step_inv s op m hinv
+    simp only [List.length_cons] at hB hg
+    have hsize : s.size = s.v.size := rfl
+    have hnb : (s.step op m).1.blocked = none := by
+      cases op with
+      | push x =>
+        simp only [Stack.step, Arr.blocked_mk]
+        by_cases hok : (s.push x m).1 = .ok
+        · rw [hok]; simp
+        · obtain ⟨hfull, hc⟩ := push_blocked_only_if s x m hinv hok
+          exfalso
+          rcases hc with ⟨_, hr⟩ | ⟨_, hl⟩
+          · rcases hs with hs | hs
+            · rw [hs] at hr; simp [Mem.allocT] at hr
+            · rw [(Arr.allocT_never_refuses m s.v.triple hs).1] at hr; simp at hr
+          · exact C01.not_atLimit s.v (by omega) (hg s.v.capacity (by omega)) hl
+      | pop =>
+        obtain ⟨r1, _⟩ := Arr.removeLast_spec s.v m hinv
+        simp only [Stack.step, Stack.pop, Out.blocked, r1]
+        unfold Spec.Seq.removeLast
+        split <;> simp
+      | peek =>
+        obtain ⟨r1, _⟩ := Arr.getLast_spec s.v m hinv
+        simp only [Stack.step, Stack.peek, Out.blocked, r1]
+        unfold Spec.Seq.getLast
+        split <;> simp
+      | size => simp [Stack.step, Out.blocked]
+    have hsched : m.sched = [] → (s.step op m).2.2.sched = [] := by
+      intro h
+      cases op with
+      | push x => exact Arr.add_sched_nil s.v x m h
+      | pop => simp only [Stack.step, Stack.pop]; rw [(Arr.removeLast_spec s.v m hinv).2.2.2.2.2.1]; exact h
+      | peek => simp only [Stack.step, Stack.peek]; rw [(Arr.getLast_spec s.v m hinv).2.2.1]; exact h
+      | size => exact h
+    have hsz : (s.step op m).2.1.size ≤ s.size + 1 := by
+      have e : ∀ t : Stack, t.size = t.abs.length := fun t => by simp [Stack.size, Stack.abs]
+      rw [e, e, s2]
+      cases op with
+      | push x =>
+        simp only [Spec.Seq.sstep]
+        split <;> simp [Spec.Seq.push, Spec.Seq.add]
+      | pop =>
+        simp only [Spec.Seq.sstep, Spec.Seq.pop, Spec.Seq.removeLast]
+        split <;> simp <;> omega
+      | peek => simp [Spec.Seq.sstep]
+      | size => simp [Spec.Seq.sstep]
+    intro o ho
+    simp only [Stack.run, List.mem_cons] at ho
+    rcases ho with ho | ho
+    · rw [ho]; exact hnb
+    · exact ih (s.step op m).2.1 (s.step op m).2.2 s4
+        (hs.elim (fun h => Or.inl (by rw [ht, h])) (fun h => Or.inr (hsched h)))
+        (by omega) (fun c hc => by rw [s3]; exact hg c (by omega)) o ho
+
+/-- consequently LIFO holds outright for such histories: on an allocator that never refuses, push `x`,
+any well-bracketed program, pop — the pop reports `x` and the content is what it was -/
+theorem lifo_of_nonrefusing {ops : List SOp} (hb : Spec.Seq.Bal ops) (s : Stack) (m : Mem) (x : Nat) (hinv : s.Inv)
+    (hs : s.v.triple = .libc ∨ m.sched = [])
+    (hB : s.size + (ops.length + 2) ≤ Gen.CC_MAX_ELEMENTS / 8)
+    (hg : ∀ c, c < s.size + (ops.length + 2) → s.v.grow c ≤ Gen.CC_MAX_ELEMENTS / 8) :
+    (s.run (.push x :: ops ++ [.pop]) m).1.getLast? = some { st := some .ok, val := some x } ∧
+    (s.run (.push x :: ops ++ [.pop]) m).2.1.abs = s.abs := by
+  have hl : (SOp.push x :: ops ++ [SOp.pop]).length = ops.length + 2 := by simp
+  have := lifo_model hb s m x hinv (history_unblocked _ s m hinv hs (by rw [hl]; exact hB) (by rw [hl]; exact hg))
+  exact ⟨this.1, this.2.1⟩
+
+/-- **the ledger of a stack history, for either allocator triple**: the live-block count of the stack's
+own triple is what it was and the other allocator's counters are untouched, so both `live` and
+`liveLibc` are balanced; the refusal counter counts exactly the pushes that reported `CC_ERR_ALLOC` -/
+theorem history_ledger (ops : List SOp) (s : Stack) (m : Mem) (hinv : s.Inv) :
+    Arr.own s.v.triple (s.run ops m).2.2 = Arr.own s.v.triple m ∧ Arr.Foreign s.v.triple m (s.run ops m).2.2 ∧
+    (s.run ops m).2.2.live = m.live ∧ (s.run ops m).2.2.liveLibc = m.liveLibc ∧
+    (s.run ops m).2.2.nrefused =
+      m.nrefused + ((s.run ops m).1.filter (fun o => decide (o.st = some .errAlloc))).length := by
+  obtain ⟨l1, l2, l3, _⟩ := Stack.run_led ops s m hinv
+  obtain ⟨b1, b2⟩ := Arr.balanced_of_own_foreign l1 l2
+  exact ⟨l1, l2, b1, b2, l3⟩
 
 /-! Whole traversals and zip programs of the stack iterators: `C07Stack.traversal_complete`,
 `C07Stack.program_refines`, `C07Stack.zip_next_sim`. -/
